@@ -59,7 +59,7 @@ ASSUMPTIONS = [
 
 PREFIXES = (REPO.rstrip('/') + '/ombott/', echo.__file__.rsplit('/', 1)[0] + '/')
 KINDS = ['echo_get', 'echo_post', 'echo_head', 'upload', 'raise_err', 'raise_resp', 'teapot', 'crash', 'gen',
-         'notfound', 'notallowed', 'json404', 'badchunk', 'chunked_ok', 'big', 'badpath', 'echo_put', 'hookcrash']
+         'notfound', 'notallowed', 'json404', 'badchunk', 'chunked_ok', 'big', 'badpath', 'echo_put', 'hookcrash', 'badchunk_json', 'badjson', 'goodjson']
 _MARK = re.compile(r'Z\d+z')
 
 
@@ -127,6 +127,15 @@ def environ_of(spec):
         kw = {'content_length': len(body)}
     elif kind == 'badpath':
         path = '/echo/\xff' + m
+    elif kind == 'badchunk_json':
+        method, path = 'POST', '/body/' + m
+        body = b'zz\r\n' + m.encode()
+        kw = {'chunked': True}
+        headers['Accept'] = 'application/json'
+    elif kind in ('badjson', 'goodjson'):
+        method, path = 'POST', '/json/' + m
+        body = ('{"m": "%s"' % m).encode() + (b'}' if kind == 'goodjson' else b', ]')
+        kw = {'content_length': len(body), 'content_type': 'application/json'}
     elif kind == 'hookcrash':
         path = '/echo/' + m
     else:
@@ -134,6 +143,33 @@ def environ_of(spec):
     env = make_environ(method, path, f'm={m}&x=1' + ('&hc=1' if kind == 'hookcrash' else ''), headers, stream=io.BytesIO(body or b''), **kw)
     env['sim.m'] = m
     return env
+
+
+def environ_method(spec):
+    k = spec['kind']
+    if k == 'echo_head':
+        return 'HEAD'
+    return 'GET'
+
+
+def wellformed(r, method):
+    """PEP 3333 shape + the framework-set Content-Length equals the bytes produced + Content-Type
+    agrees with the kind of body (an HTML error page must not be labelled JSON and vice versa)."""
+    from ..wsgi import validate
+    out = [f'{c}: {msg}' for c, msg in validate(r, method=method)]
+    if r.escaped is None and r.headers is not None:
+        cl = r.header('Content-Length')
+        if cl is not None and method != 'HEAD' and r.code not in (100, 101, 204, 304):
+            if not cl.isdigit() or int(cl) != len(r.body):
+                out.append(f'Content-Length {cl!r} but {len(r.body)} body bytes were produced')
+        if len(r.header_all('Content-Length')) > 1 or len(r.header_all('Content-Type')) > 1:
+            out.append('duplicate Content-Length / Content-Type header')
+        ct = r.header('Content-Type') or ''
+        if r.body[:9].lower() == b'<!doctype' and 'json' in ct:
+            out.append(f'HTML page labelled {ct!r}')
+        if r.body[:1] == b'{' and r.body[-1:] == b'}' and r.code and r.code >= 400 and 'html' in ct:
+            out.append(f'JSON error body labelled {ct!r}')
+    return out
 
 
 def new_app(cfg):
@@ -334,6 +370,11 @@ def run_case(case):
         if f:
             violation(res, 'C08:foreign-value-in-response',
                       f'thread {i} ({sp["kind"]} {m}): response mentions {f}: status {r.status!r}, headers {r.headers!r}')
+        # intrinsic well-formedness (independent of any reference run: a reference served by the same
+        # process shares process-wide objects such as the errors_map responses with the run under test)
+        probs = wellformed(r, environ_method(sp))
+        if probs:
+            violation(res, 'C08:malformed-response', f'thread {i} ({sp["kind"]} {m}): ' + '; '.join(probs))
         # served-alone equivalence
         a_canon, a_notes, _ = alone[i]
         if o.notes != a_notes:
